@@ -5,6 +5,7 @@ import (
 	"fmt"
 	"os"
 	"strings"
+	"sync"
 	"time"
 
 	"berty.tech/weshnet/v2/internal/zzverif/vrep"
@@ -29,6 +30,10 @@ type ScenarioReplay struct {
 // violations (each verified by 5 identical replays) into rep. If VERIF_REPLAY names a replay file of this part,
 // only that schedule is run.
 func ExploreScenarios(rep *vrep.Report, part string, scs []Scenario, maxBound, maxSteps int, budget time.Duration) {
+	if os.Getenv("VERIF_RACE_PASS") != "" {
+		FreeRunScenarios(rep, part, scs)
+		return
+	}
 	if rp := os.Getenv("VERIF_REPLAY"); rp != "" {
 		b, err := os.ReadFile(rp)
 		if err != nil {
@@ -115,4 +120,34 @@ func ExploreScenarios(rep *vrep.Report, part string, scs []Scenario, maxBound, m
 	rep.Set("max_depth_"+part, maxDepth)
 	rep.Set("preemption_bound_"+part, int64(maxBound))
 	rep.Add("scenarios", int64(len(scs)))
+}
+
+// FreeRunScenarios is the auxiliary pass for unsynchronised accesses: the same scenario bodies run on real
+// goroutines with the shims in pass-through mode, in a binary built with -race. The cooperative scheduler cannot
+// see such accesses (its hand-offs are happens-before edges), the race detector can. This pass samples schedules;
+// it only ever adds "data race in the code under test" reports (made by the race detector itself, which halts the
+// process), it never decides anything else.
+func FreeRunScenarios(rep *vrep.Report, part string, scs []Scenario) {
+	iters := 150
+	if vrep.Thorough() {
+		iters = 1500
+	}
+	for _, sc := range scs {
+		for i := 0; i < iters; i++ {
+			var wg sync.WaitGroup
+			freeWG = &wg
+			sc.Setup(nil)
+			done := make(chan struct{})
+			go func() { wg.Wait(); close(done) }()
+			select {
+			case <-done:
+			case <-time.After(5 * time.Millisecond):
+				// some thread waits for ever in this scenario (a waiter nobody wakes): leave it behind
+			}
+			freeWG = nil
+		}
+		rep.Add("free_running_iterations_"+part, int64(iters))
+	}
+	rep.Eval(part + "/free-running-race-pass")
+	rep.Eval(part + "/free-running-race-pass-completed")
 }
